@@ -21,4 +21,4 @@ for st in 0 1 2 3 4 5; do
   done
   echo "$SID $PROP strategy=$st first_violating_run=$first violations_reported=$v (workers stop at their first hang) of $N runs"
 done
-git -C /repo worktree remove --force $W; rm -rf /verif/build-alt-* /verif/out-alt-* /verif/out/strat
+git -C /repo worktree remove --force $W; SUF=$(python3 -c "import hashlib,os;print(hashlib.md5(os.path.realpath('$W').encode()).hexdigest()[:6])"); rm -rf /verif/build-alt-$SUF /verif/out-alt-$SUF /verif/out/strat
